@@ -50,6 +50,29 @@ Definition admits (k : key) (l : Z) : bool :=
   | None => false
   end.
 
+(* every Insert that succeeded, anywhere in any history, respects the chunk bound of its key, and
+   every value any view ever shows for a key of the universe respects it too unless it is the
+   value the storage held for that key *)
+Definition value_ok (c : TstateCase.case) (k : key) (ov : option val) : bool :=
+  match ov with
+  | Some v => admits k (blenZ v)
+              || existsb (fun kv : key * val => bytes_eqb (fst kv) k && bytes_eqb (snd kv) v) (c_base c)
+  | None => true
+  end.
+
+Definition kh_step_ok (c : TstateCase.case) (h : hop) (o : step_obs) : bool :=
+  match h, so_res o with
+  | HIns k v, IOk => admits k (blenZ v)
+  | _, _ => true
+  end
+  && forallb (fun kv : key * option val => value_ok c (fst kv) (snd kv)) (combine (c_univ c) (so_vis o)).
+
+Definition kh_ok (c : TstateCase.case) : bool :=
+  forallb (fun so : seg * seg_obs =>
+             forallb (fun ho : hop * step_obs => kh_step_ok c (fst ho) (snd ho))
+                     (combine (sg_hist (fst so)) (go_steps (snd so))))
+          (combine (c_segs c) (c_obs c)).
+
 Definition spec_ok (c : case) : bool :=
   match c with
   | KF k vlen maxsize mks mvc chunks o_valid o_max o_dec o_num o_vv o_verify o_enc o_encvv o_encch o_encchmax o_add =>
@@ -77,23 +100,7 @@ Definition spec_ok (c : case) : bool :=
       && implb (N.eqb o_err 0) (N.eqb o_get 0)
       && implb (fits && (all || has_bits p 7)) (N.eqb o_err 0)
       && implb (N.ltb (klen k) 2) (negb (N.eqb o_err 0))
-  | KH c =>
-      (* every Insert that succeeded, anywhere in any history, respects the chunk bound of its key,
-         and every value any view ever shows for a key of the universe that it did not inherit
-         from storage respects it too *)
-      forallb (fun so : seg * seg_obs =>
-        let base_ok k ov := match ov with
-                            | Some v => admits k (blenZ v) || existsb (fun kv => bytes_eqb (fst kv) k && bytes_eqb (snd kv) v) (c_base c)
-                            | None => true
-                            end in
-        forallb (fun ho : hop * step_obs =>
-          match fst ho, so_res (snd ho) with
-          | HIns k v, IOk => admits k (blenZ v)
-          | _, _ => true
-          end
-          && forallb (fun kv => base_ok (fst kv) (snd kv)) (combine (c_univ c) (so_vis (snd ho))))
-          (combine (sg_hist (fst so)) (go_steps (snd so))))
-        (combine (c_segs c) (c_obs c))
+  | KH c => kh_ok c
   end.
 
 Definition selftest_good : case := KI [113; 0; 1] 63 false 7 false 0 0.
